@@ -434,7 +434,7 @@ impl CPU {
                 let addr = self.reg.get_hl();
                 format!("A6            AND (${:04X})", addr)
             }
-            0xA7 => String::from("A7            AND L"), // AND A
+            0xA7 => String::from("A7            AND A"), // AND A
 
             0xE6 => {
                 // AND n
